@@ -223,6 +223,9 @@ package state
 //@     (forall i: int :: 0 <= i && i < len(so.delegations) ==> result.delegations[i] == so.delegations[i])
 //@ ensures [delegations-independent] !isnil(so.delegations) ==> fresh(result.delegations)
 //@ ensures [equal-dirty-delegations] result.dirtyDlgs == so.dirtyDlgs
+// Which *big.Int objects the copy holds: the original's own (today) or fresh ones — never a third party's. Sharing is safe only with clause 5 (end of file).
+//@ ensures [balances-shared-or-fresh] (result.data.Balance == so.data.Balance || fresh(result.data.Balance)) &&
+//@     (result.data.DelegationBalance == so.data.DelegationBalance || fresh(result.data.DelegationBalance))
 //@ ensures [wf] c10MapsWF(result)
 //@ // NOT-DECIDED: ensures [equal-addrHash] result.addrHash == so.addrHash   (Keccak is not modelled)
 //@ // NOT-DECIDED: ensures [equal-dbErr] result.dbErr == so.dbErr           (the memoised error is deliberately not copied, as in go-ethereum)
@@ -302,7 +305,7 @@ package state
 //@ ghost var c10Saved: int
 //@ func (*StateDB).IntermediateRoot props C10
 //@ requires st != nil
-//@ modifies all, c10Saved, c10TrieK, c10TrieW, c10TrieDel, c10Trim
+//@ modifies all, c10Saved, c10TrieK, c10TrieW, c10TrieDel, c10Trim, c10StakeW, c10StakeArg, c10StakeEnc, c10AcctEnc
 //@ assert before call (*stateObject).updateRoot: [live-object-written] !obj.deleted      // updateRoot + updateStateObject follow on this path
 //@ assert before call (*StateDB).deleteStateObject: [deleted-object-removed] obj.deleted
 //@ assert before call (*StateDB).updateValidator: [live-validator-written] !val.deleted
@@ -469,3 +472,221 @@ package state
 //@ ensures [answer-is-cached-value] !old(in(key, so.pendingStorage)) && in(key, so.originStorage) ==> so.originStorage[key] == result
 //@ ensures [other-slots-kept] forall k: common.Hash :: k != key ==> so.originStorage[k] == old(so.originStorage[k]) && in(k, so.originStorage) == old(in(k, so.originStorage))
 //@ ensures [wf] c10MapsWF(so)
+
+// ---------------------------------------------------------------------------------------------------------------
+// Clause 5: "a copy of a state is ... independent of the original" for the components a copied state object SHARES with its original.
+// deepCopy hands so.data to newObject BY VALUE: the copy's data.Balance / data.DelegationBalance are the SAME *big.Int objects as the original's
+// ([balances-shared-or-fresh] on deepCopy), code / CodeHash / DelegationsHash are the same byte arrays ([equal-code], [equal-account]). That is
+// independent only if nothing writes those objects in place. Closed per shared object as a pair (copy shares X) + (no mutator writes X):
+//   * every function of the package that stores the two balance fields or calls a non-pure method on a value loaded from them is in the `owns`
+//     list below (checked on the SSA of the whole package), and each of them REPLACES the pointer: the integer previously held is not written
+//     ([previous-...-object-untouched], and the frame obligation #frame[BigVal] of a `modifies` clause that names the FIELD only);
+//   * the functions that reach the integers through the getters Balance() / DelegationBalance() (Add / Sub / Set…Balance, Suicide) have the same clause;
+//   * code / hashes: setCode, Code, setDelegations replace the slices, their frames show no byte array is written.
+// Outside: callers in OTHER packages that receive the pointer from GetBalance / GetDelegationBalance / Balance() and write through it.
+//@ owns Account.Balance, Account.DelegationBalance by newObject, (*stateObject).deepCopy, (*stateObject).setBalance, (*stateObject).setDelegationBalance, (*StateDB).Suicide props C10
+
+//@ func (*stateObject).setBalance props C10
+//@ panics none
+//@ requires [nonnil] so != nil && amount != nil
+//@ modifies so.data.Balance
+//@ ensures [set] so.data.Balance != nil && big(so.data.Balance) == old(big(amount))
+//@ ensures [previous-balance-object-untouched] big(old(so.data.Balance)) == old(big(so.data.Balance)) && big(amount) == old(big(amount))
+
+//@ func (*stateObject).setDelegationBalance props C10
+//@ panics none
+//@ requires [nonnil] so != nil && value != nil
+//@ modifies so.data.DelegationBalance
+//@ ensures [set] so.data.DelegationBalance != nil && big(so.data.DelegationBalance) == old(big(value))
+//@ ensures [previous-delegation-balance-object-untouched] big(old(so.data.DelegationBalance)) == old(big(so.data.DelegationBalance)) && big(value) == old(big(value))
+
+// Every implementation of journalEntry.dirtied returns a stored pointer or nil (journal.go): no effect. (journal.append is inlined into the setters.)
+//@ func (journalEntry).dirtied props C10
+//@ trusted
+//@ pure
+
+//@ func (*stateObject).SetBalance props C10
+//@ requires [nonnil] so != nil && so.db != nil && so.db.journal != nil && so.db.journal.dirties != nil && so.data.Balance != nil && amount != nil
+//@ let j = so.db.journal
+//@ modifies so.data.Balance, j.entries, elems(j.entries), mapof(j.dirties)
+//@ ensures [set] big(so.data.Balance) == old(big(amount))
+//@ ensures [previous-balance-object-untouched] big(old(so.data.Balance)) == old(big(so.data.Balance)) && big(amount) == old(big(amount))
+
+//@ func (*stateObject).SetDelegationBalance props C10
+//@ requires [nonnil] so != nil && so.db != nil && so.db.journal != nil && so.db.journal.dirties != nil && so.data.DelegationBalance != nil && value != nil
+//@ let j = so.db.journal
+//@ modifies so.data.DelegationBalance, j.entries, elems(j.entries), mapof(j.dirties)
+//@ ensures [set] big(so.data.DelegationBalance) == old(big(value))
+//@ ensures [previous-delegation-balance-object-untouched] big(old(so.data.DelegationBalance)) == old(big(so.data.DelegationBalance)) && big(value) == old(big(value))
+
+//@ func (*stateObject).AddDelegationBalance props C10
+//@ requires [nonnil] so != nil && so.db != nil && so.db.journal != nil && so.db.journal.dirties != nil && so.data.DelegationBalance != nil && value != nil
+//@ let j = so.db.journal
+//@ modifies so.data.DelegationBalance, j.entries, elems(j.entries), mapof(j.dirties)
+//@ ensures [exact] big(so.data.DelegationBalance) == old(big(so.data.DelegationBalance)) + old(big(value))
+//@ ensures [previous-delegation-balance-object-untouched] big(old(so.data.DelegationBalance)) == old(big(so.data.DelegationBalance)) && big(value) == old(big(value))
+
+//@ func (*stateObject).SubDelegationBalance props C10
+//@ requires [nonnil] so != nil && so.db != nil && so.db.journal != nil && so.db.journal.dirties != nil && so.data.DelegationBalance != nil && value != nil
+//@ let j = so.db.journal
+//@ modifies so.data.DelegationBalance, j.entries, elems(j.entries), mapof(j.dirties)
+//@ ensures [exact] big(so.data.DelegationBalance) == old(big(so.data.DelegationBalance)) - old(big(value))
+//@ ensures [previous-delegation-balance-object-untouched] big(old(so.data.DelegationBalance)) == old(big(so.data.DelegationBalance)) && big(value) == old(big(value))
+
+//@ effectfree bytes.Equal
+//@ func (*stateObject).AddBalance props C10
+//@ requires [nonnil] so != nil && so.db != nil && so.db.journal != nil && so.db.journal.dirties != nil && so.data.Balance != nil && amount != nil
+//@ let j = so.db.journal
+//@ modifies so.data.Balance, j.entries, elems(j.entries), mapof(j.dirties)
+//@ ensures [exact] big(so.data.Balance) == old(big(so.data.Balance)) + old(big(amount))
+//@ ensures [previous-balance-object-untouched] big(old(so.data.Balance)) == old(big(so.data.Balance)) && big(amount) == old(big(amount))
+
+//@ func (*stateObject).SubBalance props C10
+//@ requires [nonnil] so != nil && so.db != nil && so.db.journal != nil && so.db.journal.dirties != nil && so.data.Balance != nil && amount != nil
+//@ let j = so.db.journal
+//@ modifies so.data.Balance, j.entries, elems(j.entries), mapof(j.dirties)
+//@ ensures [exact] big(so.data.Balance) == old(big(so.data.Balance)) - old(big(amount))
+//@ ensures [previous-balance-object-untouched] big(old(so.data.Balance)) == old(big(so.data.Balance)) && big(amount) == old(big(amount))
+
+// Suicide zeroes the balance by installing a NEW integer. The object is whatever getStateObject returns (thin ASSUMED contract: writes the cache and
+// dbErr only, returns the cached object of addr or a fresh one); that NO pre-existing big.Int is written is also the obligation Suicide#frame[BigVal].
+//@ func (*StateDB).getStateObject props C10
+//@ nobody
+//@ requires st != nil
+//@ modifies st.dbErr, mapof(st.stateObjects)
+//@ ensures stateObject != nil ==> stateObject.data.Balance != nil && (stateObject == old(st.stateObjects[addr]) || fresh(stateObject))
+//@ func (*StateDB).Suicide props C10
+//@ requires [nonnil] st != nil && st.journal != nil && st.journal.dirties != nil
+//@ let j = st.journal
+//@ let obj = st.stateObjects[addr]
+//@ modifies st.dbErr, mapof(st.stateObjects), obj.suicided, obj.data.Balance, j.entries, elems(j.entries), mapof(j.dirties)
+//@ ensures [previous-balance-object-untouched] obj != nil ==> big(old(obj.data.Balance)) == old(big(obj.data.Balance))
+
+// Code and the two hashes: replaced, never written in place.
+//@ func (*stateObject).setCode props C10
+//@ panics none
+//@ requires [nonnil] so != nil
+//@ modifies so.code, so.data.CodeHash, so.dirtyCode
+//@ ensures [set] so.code == code && so.dirtyCode && fresh(so.data.CodeHash) && len(so.data.CodeHash) == 32
+//@ func (*stateObject).setDelegations props C10
+//@ panics none
+//@ requires [nonnil] so != nil
+//@ modifies so.data.DelegationsHash, so.delegations
+//@ ensures [set] so.data.DelegationsHash == hash && so.delegations == dlgs
+
+// ---------------------------------------------------------------------------------------------------------------
+// Clause 6: dirty-set completeness of the staking records ("reopening from the three returned roots yields the same ... staking records as the live
+// object"). The live object answers from st.stakingRecords; a reopened state reads the staking trie, which updateStakingTrie writes for exactly the
+// keys in st.stakingRecordsDirty. So: every call that changes the content of a cached record (AddStakingRecord is the only writer of record content)
+// leaves the record's key in the dirty set on EVERY return; and updateStakingTrie writes every dirty key before it clears the set.
+// The key of (delegator, validator) is newBiAddress(d, v): a pure function of its arguments (ASSUMED clause: the two `copy`s are not re-proved).
+//@ spec func c10BiKey(d: common.Address, v: common.Address) biAddress
+//@ func newBiAddress props C10
+//@ modifies nothing
+//@ ensures [fresh] result != nil && fresh(result)
+//@ ensures [function-of-arguments] assumed *result == c10BiKey(d, v)
+
+//@ effectfree github.com/youchainhq/go-youchain/common/hexutil.Encode
+//@ spec func c10RecAt(st: *StateDB, k: biAddress) *stakingRecord = st.stakingRecords[k]
+
+// A record object made during the call (decoded or new) holds an amount and a hash list made during the call too: nothing of it points into older objects.
+//@ spec func c10RecOwnsParts(r: *stakingRecord) bool = (r.record.FinalValue == nil || fresh(r.record.FinalValue)) && (cap(r.record.TxHashes) == 0 || fresh(r.record.TxHashes))
+// getStakingRecord: the cached record of the key, else a record loaded from the staking trie and cached (fresh object), else nil. Only the key's cache slot changes.
+//@ func (*StateDB).getStakingRecord props C10
+//@ requires [nonnil] st != nil && st.stakingRecords != nil
+//@ modifies st.dbErr, mapof(st.stakingRecords)
+//@ ensures [cached] old(c10RecAt(st, key)) != nil ==> result == old(c10RecAt(st, key)) && mapdom(st.stakingRecords) == old(mapdom(st.stakingRecords)) && mapval(st.stakingRecords) == old(mapval(st.stakingRecords))
+//@ ensures [loaded] old(c10RecAt(st, key)) == nil && result != nil ==> fresh(result) && c10RecAt(st, key) == result && c10RecOwnsParts(result)
+//@ ensures [miss] result == nil ==> mapdom(st.stakingRecords) == old(mapdom(st.stakingRecords)) && mapval(st.stakingRecords) == old(mapval(st.stakingRecords))
+//@ ensures [others-kept] forall k: biAddress :: k != key ==> c10RecAt(st, k) == old(c10RecAt(st, k))
+
+//@ func (*StateDB).getOrNewStakingRecord props C10
+//@ requires [nonnil] st != nil && st.stakingRecords != nil
+//@ modifies st.dbErr, mapof(st.stakingRecords)
+//@ ensures [found-or-created] result != nil && c10RecAt(st, key) == result
+//@ ensures [cached] old(c10RecAt(st, key)) != nil ==> result == old(c10RecAt(st, key))
+//@ ensures [new-or-loaded] old(c10RecAt(st, key)) == nil ==> fresh(result) && c10RecOwnsParts(result)
+//@ ensures [others-kept] forall k: biAddress :: k != key ==> c10RecAt(st, k) == old(c10RecAt(st, k))
+
+// AddStakingRecord(d, v, txHash, newFinalValue). rec = the record cached for the key at entry (nil: not cached; the call then works on a fresh object).
+//@ func (*StateDB).AddStakingRecord props C10
+//@ requires [nonnil] st != nil && st.stakingRecords != nil && st.stakingRecordsDirty != nil
+//@ let k = c10BiKey(d, v)
+//@ let rec = st.stakingRecords[c10BiKey(d, v)]
+//@ modifies st.dbErr, mapof(st.stakingRecords), mapof(st.stakingRecordsDirty), big(rec.record.FinalValue), rec.record.TxHashes, elems(rec.record.TxHashes)
+//@ ensures [record-cached] c10RecAt(st, k) != nil && (rec != nil ==> c10RecAt(st, k) == rec)
+//@ ensures [changed-record-is-dirty] rec != nil && (big(rec.record.FinalValue) != old(big(rec.record.FinalValue)) || rec.record.FinalValue != old(rec.record.FinalValue) ||
+//@     rec.record.TxHashes != old(rec.record.TxHashes)) ==> in(k, st.stakingRecordsDirty)
+//@ ensures [uncached-record-given-data-is-dirty] rec == nil && (newFinalValue != nil || txHash != zero(common.Hash)) ==> in(k, st.stakingRecordsDirty)
+//@ ensures [value-set] newFinalValue != nil && c10RecAt(st, k).record.FinalValue != nil ==> big(c10RecAt(st, k).record.FinalValue) == old(big(newFinalValue))
+//@ ensures [dirty-set-only-grows] st.stakingRecordsDirty == old(st.stakingRecordsDirty) && (forall q: biAddress :: old(in(q, st.stakingRecordsDirty)) ==> in(q, st.stakingRecordsDirty))
+//@ ensures [other-records-kept] forall q: biAddress :: q != k ==> c10RecAt(st, q) == old(c10RecAt(st, q))
+
+// updateStakingTrie. Ghost record of the record writes of ONE call, taken from the actual arguments of the calls:
+//   c10StakeW    the 40-byte keys handed to stakingTrie.TryUpdate in the record loop,
+//   c10StakeArg / c10StakeEnc   argument and result of the rlp.EncodeToBytes call of the same iteration.
+// [writes-cached-record]: the bytes written under a key are the encoding of the record CACHED under that key (what the live object answers with).
+//@ ghost var c10StakeW: set[biAddress]
+//@ ghost var c10StakeArg: int
+//@ ghost var c10StakeEnc: []byte
+// builds key|data in a new buffer and hands it to the trie (bytes.Buffer is not modelled): ASSUMED to have no effect on the modelled heap
+//@ func (*StateDB).updateKeyedData props C10
+//@ nobody
+//@ pure
+
+//@ func (*StateDB).updateStakingTrie props C10
+//@ requires [nonnil] st != nil && st.stakingRecordsDirty != nil
+// frame: byte arrays because of the loop cut over the address-taken local `key` (engine_requests/C10.md R1); st.pendingRelats because `&st.pendingRelats` is boxed
+// into the interface argument of rlp.EncodeToBytes and the engine havocs a field whose address escapes, even into a pure callee (engine_requests/C10.md R8)
+//@ modifies st.stakingRecordsDirty, st.pendingRelatsDirty, st.pendingRelats, all(elems(byte)), c10StakeW, c10StakeArg, c10StakeEnc
+//@ ghost at entry: c10StakeW := emptyset(biAddress)
+//@ ghost before call rlp.EncodeToBytes: c10StakeArg := a0
+//@ ghost after call rlp.EncodeToBytes: c10StakeEnc := ret0
+//@ assert before call (Trie).TryUpdate: [own-trie] recv == st.stakingTrie
+//@ assert before call (Trie).TryUpdate: [whole-key] off(a0) == 0 && len(a0) == 40
+//@ assert before call (Trie).TryUpdate: [writes-cached-record] a1 == c10StakeEnc && c10StakeArg == box(c10RecAt(st, elems(a0)))
+//@ ghost before call (Trie).TryUpdate: c10StakeW := store(c10StakeW, elems(a0), true)
+//@ loop #1 invariant [dirty-set-kept] st.stakingRecordsDirty == old(st.stakingRecordsDirty) && st.pendingRelatsDirty == old(st.pendingRelatsDirty)
+//@ loop #1 invariant [visited-dirty] forall k: biAddress :: visited[k] ==> in(k, st.stakingRecordsDirty)
+//@ loop #1 invariant [written] forall k: biAddress :: visited[k] <==> c10StakeW[k]
+//@ loop #1 invariant [empty] len(st.stakingRecordsDirty) == 0 ==> (forall k: biAddress :: { mapdom(st.stakingRecordsDirty)[k] } !visited[k])
+//@ ensures [no-dirty-record-dropped] forall k: biAddress :: old(in(k, st.stakingRecordsDirty)) ==> c10StakeW[k] || in(k, st.stakingRecordsDirty)
+//@ ensures [every-dirty-record-written] result == nil ==> (forall k: biAddress :: old(in(k, st.stakingRecordsDirty)) ==> c10StakeW[k])
+//@ ensures [only-dirty-records-written] forall k: biAddress :: c10StakeW[k] ==> old(in(k, st.stakingRecordsDirty))
+//@ ensures [dirty-cleared] result == nil ==> len(st.stakingRecordsDirty) == 0 && (forall k: biAddress :: !in(k, st.stakingRecordsDirty))
+//@ ensures [relationships-flag-cleared] result == nil ==> !st.pendingRelatsDirty
+
+// Pending relationships: the list is saved by updateStakingTrie only when pendingRelatsDirty is set. (*pendingRelationship).Add: thin ASSUMED contract
+// (sort.Search + in-place insertion are not re-proved): it writes the list and the two counters, and changes nothing when it answers false.
+//@ func (*pendingRelationship).Add props C10
+//@ nobody
+//@ requires p != nil
+//@ modifies p.r, elems(p.r), mapof(p.delegatorPendingCount), mapof(p.validatorPendingCount)
+//@ ensures !result ==> p.r == old(p.r) && elems(p.r) == old(elems(p.r)) && mapval(p.delegatorPendingCount) == old(mapval(p.delegatorPendingCount)) && mapval(p.validatorPendingCount) == old(mapval(p.validatorPendingCount))
+//@ func (*StateDB).AddPendingRelationship props C10
+//@ panics none
+//@ requires [nonnil] st != nil && st.pendingRelats != nil
+//@ let p = st.pendingRelats
+//@ modifies st.pendingRelatsDirty, p.r, elems(p.r), mapof(p.delegatorPendingCount), mapof(p.validatorPendingCount)
+//@ ensures [changed-relationships-are-dirty] p.r != old(p.r) || elems(p.r) != old(elems(p.r)) || mapval(p.delegatorPendingCount) != old(mapval(p.delegatorPendingCount)) ||
+//@     mapval(p.validatorPendingCount) != old(mapval(p.validatorPendingCount)) ==> st.pendingRelatsDirty
+//@ ensures [flag-only-set] old(st.pendingRelatsDirty) ==> st.pendingRelatsDirty
+
+// ---------------------------------------------------------------------------------------------------------------
+// Periphery of clause 3: the two account-trie writers IntermediateRoot calls per pending object (guard contracts over the actual arguments):
+// the object's RLP encoding is stored in the ACCOUNT trie under the object's own 20-byte address; a deleted object's address is removed there.
+//@ ghost var c10AcctEnc: []byte
+//@ func (*StateDB).updateStateObject props C10
+//@ requires [nonnil] st != nil && stateObject != nil
+//@ modifies st.dbErr, c10AcctEnc
+//@ assert before call rlp.EncodeToBytes: [encodes-the-object] a0 == box(stateObject)
+//@ ghost after call rlp.EncodeToBytes: c10AcctEnc := ret0
+//@ assert before call (Trie).TryUpdate: [own-trie] recv == st.trie
+//@ assert before call (Trie).TryUpdate: [own-key] off(a0) == 0 && len(a0) == 20 && elems(a0) == stateObject.address
+//@ assert before call (Trie).TryUpdate: [writes-the-encoding] a1 == c10AcctEnc
+
+//@ func (*StateDB).deleteStateObject props C10
+//@ requires [nonnil] st != nil && stateObject != nil
+//@ modifies st.dbErr
+//@ assert before call (Trie).TryDelete: [own-trie] recv == st.trie
+//@ assert before call (Trie).TryDelete: [own-key] off(a0) == 0 && len(a0) == 20 && elems(a0) == stateObject.address
